@@ -70,6 +70,10 @@ THEOREMS = [
     "Verif.C07.interpret_crop_cases",
     "Verif.C07.retether_horizontal_length",
     "Verif.C07.retether_maps_content",
+    "Verif.C07.good_init",
+    "Verif.C07.good_frameItem",
+    "Verif.C07.good_crop",
+    "Verif.C07.good_preserved",
 ]
 RULE = (
     "corpus (F2 inputs) + exhaustive small scope on real TIFF stacks of n<=6 frames of 4x5 pixels: every slice with "
@@ -361,7 +365,7 @@ def impl_prog(spec, prog):
             return err_token(e)
 
 
-IMAGE_STREAMS = ("small-scope", "small-scope-flavours", "roi-stack", "random-programs", "commute", "corpus")
+IMAGE_STREAMS = ("small-scope", "small-scope-flavours", "roi-stack", "time-exhaustive", "random-programs", "commute", "corpus")
 
 
 def wants_image(case):
@@ -1779,6 +1783,25 @@ def cases(tier, rng):
                           ["i", sub.randint(-m, m - 1) if sub.chance(0.9) else sub.choice([m, -m - 1])]])
         crop = ["c", *rnd_range(sub, w, 0.35), *rnd_range(sub, h, 0.35)]
         yield {"stream": "commute", "op": "commute", "spec": spec, "prog": pre + [crop, sel], "prog2": pre + [sel, crop], "subseed": i}
+
+    # ---- time-like bounds, exhaustive small scope: 4 frames (and the stepped stack [::2] of 6), every pair of bounds among
+    # None and start/exposure-stop of every visible frame -1/0/+1 ns, as absolute timestamps and as time strings counted
+    # from the start (>= 0) and from the stop (< 0) of the current stack
+    tvariants = ((small_spec(4), []), (small_spec(6), [["s", None, None, 2]]), (small_spec(6), [["s", 1, 5, None]]))
+    for tspec, pre in (tvariants[:2] if quick else tvariants):
+        table = bt.page_table(tspec)
+        vis = list(range(sum(tspec["files"])))[slice(*pre[0][1:4])] if pre else list(range(sum(tspec["files"])))
+        # a frame is selected when a <= start and exposure stop < b: 0 / +1 ns are the two sides of either comparison
+        marks = sorted({table[p][k] + d for p in vis for k in (0, 2) for d in ((0, 1) if quick else (-1, 0, 1))})
+        first, last = table[vis[0]][0], table[vis[-1]][2]
+        absb = [None] + marks
+        for a, b in itertools.product(absb, absb):
+            yield prog_case("time-exhaustive", tspec, pre + [["t", a, b, None]])
+        strb = [None] + [{"s": f"{m - first}ns", "ns": m - first} for m in marks if m - first >= 0] + \
+               [{"s": f"-{last - m}ns", "ns": m - last} for m in marks if m - last < 0]
+        for a, b in itertools.product(strb, strb):
+            if isinstance(a, dict) or isinstance(b, dict):
+                yield prog_case("time-exhaustive", tspec, pre + [["t", a, b, 2 if (a is None or b is None) else None]])
 
     # ---- to_kymo, exhaustive small scope: 3 frames of 4x5 pixels, every integer tether row / pair of end columns, every
     # half window in -1..2, a crop cutting 0..4 columns off the left AFTER the tether (left end outside: F20; both ends
